@@ -405,6 +405,8 @@ def _grouping(ctx, cfg):
             if bs is not None:
                 g1 = state.gradient(samples[0], np.array(list(bs[0])))           # 1-D single-sample form
                 check("gradient/1-D form " + tag, g1, rows[:1], bs[:1])
+                for form, bb in (("list", list(bs[0])), ("tuple", tuple(bs[0])), ("str", "".join(bs[0]))):
+                    check("gradient/1-D form, bases as %s " % form + tag, state.gradient(samples[0], bb), rows[:1], bs[:1])
             else:
                 g1 = state.gradient(samples[0])
                 check("gradient/1-D form " + tag, g1, rows[:1], None)
